@@ -448,6 +448,7 @@ func c04() {
 		c04Advance(R, rng, agent, d, users, round)
 	}
 	c04InternalErrors(R, agent, d, base, sets)
+	c04Methods(R, agent, d)
 	c04Options(R, rng, bin, dir)
 	c04Concurrent(R, rng, agent, users)
 	R.Count("cli_calls", ncli)
@@ -675,5 +676,53 @@ func c04Options(R *vr.Result, rng *rand.Rand, bin, root string) {
 			}
 		}
 		agent.Stop()
+	}
+}
+
+// c04Methods: whatever the HTTP method, content type or header spelling, a request whose credentials the store
+// refuses (or that carries none) never gets a 2xx answer from the authentication endpoints.
+func c04Methods(R *vr.Result, agent *agentProc, d *store.Dir) {
+	type cred struct{ class, user, pw string }
+	creds := []cred{{"wrong-password", "alice", "not-the-password"}, {"unknown-user", "nobody-here", "secret"}, {"no-credentials", "", ""}, {"empty-password", "alice", ""}, {"right", "root", "root-Password"}}
+	for _, m := range []string{"GET", "HEAD", "POST", "PUT", "DELETE", "PATCH", "OPTIONS", "PROPFIND", "TRACE", "CONNECT", "get", "FOO"} {
+		for _, ep := range []string{"/basic-auth", "/api/authenticate"} {
+			for _, c := range creds {
+				for _, ct := range []string{"application/json", "text/plain", ""} {
+					if ep == "/basic-auth" && ct != "" {
+						continue
+					}
+					var body io.Reader
+					if ep == "/api/authenticate" && c.class != "no-credentials" {
+						b, _ := json.Marshal(map[string]string{"username": c.user, "password": c.pw})
+						body = bytes.NewReader(b)
+					}
+					req, err := http.NewRequest(m, "http://"+agent.HTTP+ep, body)
+					if err != nil {
+						continue
+					}
+					if ct != "" {
+						req.Header.Set("Content-Type", ct)
+					}
+					if ep == "/basic-auth" && c.class != "no-credentials" {
+						req.Header.Set("Authorization", "Basic "+base64.StdEncoding.EncodeToString([]byte(c.user+":"+c.pw)))
+					}
+					req.Header.Set("Origin", "https://example.org")
+					req.Header.Set("Access-Control-Request-Method", "POST")
+					want, _, _, _, _ := d.Authenticate(c.user, c.pw)
+					resp, err := c04HTTP.Do(req)
+					if err != nil {
+						R.Count("method_probe_transport_errors", 1)
+						continue
+					}
+					io.Copy(io.Discard, resp.Body) //nolint:errcheck
+					resp.Body.Close()              //nolint:errcheck
+					R.Case(fmt.Sprintf("method|%s|%s|%s|%s", m, ep, c.class, ct), true)
+					R.Count("method_probes", 1)
+					if !want && resp.StatusCode >= 200 && resp.StatusCode < 300 {
+						R.Violate(fmt.Sprintf("c04:frontend-accepts-store-denies:http-method:%s", strings.ToUpper(m)), fmt.Sprintf("%s %s with %s (content type %q) is answered %d although the store refuses these credentials", m, ep, c.class, ct, resp.StatusCode), "methods/"+m+ep, map[string]any{"method": m, "endpoint": ep, "credentials": c.class, "status": resp.StatusCode})
+					}
+				}
+			}
+		}
 	}
 }
